@@ -141,6 +141,22 @@ def K4_codec(rep, flow: Flow, tier):
             rep.finding("K4", f"print:{'|'.join(gens)}", f"stabilizer.py Stabilizer.to_list: {list(gens)} is exported as {out}, expected {want}")
         else:
             rep.ok("K4", 1, nontrivial=gens, sample=f"{list(gens)} -> (R,S,phases) -> {out}")
+        # the printed form (`__repr__`), where it quotes one string per generator, quotes the signed generators
+        rp = cls.methods.get("__repr__")
+        if rp is not None and out == want:
+            try:
+                text = ce.call_func(rp, [st], {})
+            except (CERaise, AnalysisError):
+                text = None
+            if isinstance(text, str):
+                import re as _re
+                quoted = _re.findall(r"['\"]([^'\"]*)['\"]", text)
+                if len(quoted) == len(want):
+                    norm = [(q if q[:1] in "+-" else "+" + q) for q in quoted]
+                    if norm != want:
+                        rep.finding("K4", f"repr:{'|'.join(gens)}", f"stabilizer.py Stabilizer.__repr__: the object built from {list(gens)} prints as {text!r}; the quoted generators {quoted} are not the signed generators {want} (read back, the printed text denotes another signed group)")
+                    else:
+                        rep.ok("K4", 1, nontrivial=("repr",) + tuple(gens))
         rev = ce.call_func(to_list, [st], {"qiskit_convention": True})
         want_rev = [w[0] + w[1:][::-1] for w in want]
         if rev != want_rev:
